@@ -627,7 +627,7 @@ func main() {
 		case i == 1 && witnesses > 0:
 			g = rpStr("1") // repaired: rejected
 		case i == 2 && witnesses > 0:
-			g = fidEnc(3, 0, 0x637037d6) // finding 0: "3,637037d6" does not parse back
+			g = fidEnc(3, 0, 0x637037d6) // former finding 0 (repaired): key 0 now prints as "3,00637037d6" and parses back
 		case i == 3 && witnesses > 0:
 			g = ttlU32(0x10501) // finding 1: decoded as 5m
 		case i < slice:
